@@ -32,7 +32,7 @@ TRUSTED = ['coq/theories/Lib/AesSpec.v: FIPS-197 AES-128 written from the standa
            'seed[79:0]; streams earliest-bit-most-significant) are taken from the docstrings and the suite']
 ASSUMPTIONS = ['adders.kogge_stone(s0, s1) inside prng_xoroshiro128 is modelled as integer addition (checked '
                'behaviourally here; adder correctness is another property)',
-               'FastSimulation is used for the three AES netlists (speed); PRNG circuits use pyrtl.Simulation',
+               'FastSimulation is used for the three AES netlists and for PRNG schedules longer than 600 cycles (speed); all other PRNG runs use pyrtl.Simulation',
                'inputs are in range (128-bit key/block, 127/128/160-bit seeds, 1-bit load/req/reset)']
 
 M128 = (1 << 128) - 1
@@ -485,7 +485,7 @@ BITWIDTHS = [1, 7, 63, 64, 65, 127, 128, 129, 200, 256]
 BPCS = [1, 2, 4, 8, 16, 32, 64]
 
 
-def build_prng(kind, bw, bpc=None):
+def build_prng(kind, bw, bpc=None, fast=False):
     pyrtl.reset_working_block()
     load, req = pyrtl.Input(1, 'load'), pyrtl.Input(1, 'req')
     seedw = {'lfsr': 127, 'xoro': 128, 'triv': 160}[kind]
@@ -504,7 +504,8 @@ def build_prng(kind, bw, bpc=None):
         ready <<= r
         rand <<= o
     blk = pyrtl.working_block()
-    return pyrtl.Simulation(tracer=pyrtl.SimulationTrace(wires_to_track=[rand, ready], block=blk), block=blk)
+    cls = pyrtl.FastSimulation if fast else pyrtl.Simulation
+    return cls(tracer=pyrtl.SimulationTrace(wires_to_track=[rand, ready], block=blk), block=blk)
 
 
 def prng_schedule(rng, kind, bw, bpc, style, seeds=None):
@@ -569,7 +570,7 @@ def prng_configs(ctx):
                             (style == 'random' and (bw, bpc) in ((256, 4), (65, 16), (127, 32), (200, 8))))
                     if not keep:
                         continue
-                for rep in range(1 if quick else 2):
+                for rep in range(1 if (quick or bpc < 8) else 2):
                     cfgs.append(('triv', bw, bpc, style, rep))
     return cfgs
 
@@ -600,7 +601,8 @@ def check_prngs(ctx):
     for cfg, rle in cases:
         kind, bw, bpc, style, rep = cfg
         rows = expand(rle)
-        sim = build_prng(kind, bw, bpc)
+        sim = build_prng(kind, bw, bpc, fast=len(rows) > 600)
+        ctx.count('prng-simulator', 'FastSimulation' if len(rows) > 600 else 'Simulation')
         ref = {'lfsr': lambda: RefLfsr(bw), 'xoro': lambda: RefXoroshiro(bw), 'triv': lambda: RefTrivium(bw, bpc)}[kind]()
         tr, rf = [], []
         for (l, r, s) in rows:
